@@ -257,7 +257,17 @@ impl<'a, R: RealNumberInternalTrait> Interpreter<'a, R> {
             .iter()
             .map(|arg| Self::eval_expression(arg, env))
             .collect::<Result<ArgVec<_>>>()?;
-        Ok((first.expect_procedure()?, evaluated_args_result))
+        // located at the operator, like a call outside tail position
+        let procedure = match first {
+            Value::Procedure(procedure) => procedure,
+            other => {
+                return located_error!(
+                    LogicError::TypeMisMatch(other.to_string(), Type::Procedure),
+                    procedure_expr.location
+                )
+            }
+        };
+        Ok((procedure, evaluated_args_result))
     }
 
     pub fn apply_procedure(
